@@ -255,7 +255,10 @@ def run(ck, F, E):
                    "frames are searched from the top of the stack (%s)" % sorted({c.callee.split("::")[-1] for c in backwards}),
                    "find_variable_value_in_stack no longer walks the frames innermost-first (calls: %s): a nested FN call sees an "
                    "outer frame's binding of a same-named parameter" % names, fv.span)
-    et = get_fn(ck, F, "ExpressionEvaluator::evaluate_expression_term")
+    # the function of the expression evaluator that resolves a plain variable (wherever that code lives: today
+    # evaluate_expression_term, possibly a helper extracted from it)
+    cands = [b for b, c in callers_of(F, "Program::find_variable_value_in_stack") if b.crate == "abasic_core" and "expression::ExpressionEvaluator" in b.path]
+    et = cands[0] if len({b.path for b in cands}) == 1 else get_fn(ck, F, "ExpressionEvaluator::evaluate_expression_term")
     if et is not None:
         fs = et.calls_to("Program::find_variable_value_in_stack")
         vg = et.calls_to("Variables::get")
